@@ -319,7 +319,7 @@ func checkRecover(c *core.Ctx, fn *ssa.Function, rule string) {
 		}
 		isAbort := func(ins ssa.Instruction) bool {
 			cc := ssax.CallOf(ins)
-			return cc != nil && ssax.CalleeName(cc) == core.Mod+"/server.abort"
+			return isAbortCallee(cc)
 		}
 		hit, trail := ssax.Reach{
 			Target: func(ins ssa.Instruction) bool { _, ok := ins.(*ssa.Return); return ok },
